@@ -74,7 +74,7 @@ def decide(ctx, spec_module, cases, trace_file, failed, validated, level_note, r
         fd = next(k for k in known if k["id"] == fid)
         print("KNOWN-FINDING: property=%s %s %s (%d cases, e.g. case %d)" % (prop, fid, fd["what"], len(set(ids)), ids[0]), flush=True)
     # ---- replay files and VIOLATION lines
-    rdir = os.path.join(VERIF, "replay")
+    rdir = os.path.join(core.OUT_ROOT, "replay")
     nvio = len(violations)
     shown = {}
     if violations:
@@ -120,8 +120,8 @@ def decide(ctx, spec_module, cases, trace_file, failed, validated, level_note, r
         cov.update(extra_cov)
     ev = dict(property_id=prop, tier=ctx.tier, seed=ctx.seed, level="model_checking", coverage=cov,
               assumptions=assumptions, wall_s=round(time.time() - ctx.t0, 1), violations=nvio)
-    os.makedirs(os.path.join(VERIF, "evidence"), exist_ok=True)
-    with open(os.path.join(VERIF, "evidence", prop + ".json"), "w") as f:
+    os.makedirs(os.path.join(core.OUT_ROOT, "evidence"), exist_ok=True)
+    with open(os.path.join(core.OUT_ROOT, "evidence", prop + ".json"), "w") as f:
         json.dump(ev, f, indent=1)
     log("%s %s: %d cases, %d rejected, %d confirmed, %d known, %d violating; %.0fs" % (
         prop, ctx.tier, len(cases), len(mine), len(confirmed), sum(len(set(v)) for v in hits.values()), nvio, time.time() - ctx.t0))
